@@ -45,6 +45,9 @@ pub struct KsEngine;
 pub struct KeyGen {
   rng: Xo,
   counter: u64,
+  /// when set, a secret is sometimes handed out again (a KMS with deterministic derivation): two methods may then
+  /// carry the same key material
+  pub repeat_secrets: bool,
   pub issued_ids: Vec<String>,
   pub issued_secrets: Vec<[u8; 32]>,
 }
@@ -54,6 +57,7 @@ impl KeyGen {
     KeyGen {
       rng: Xo::new(seed),
       counter: 0,
+      repeat_secrets: false,
       issued_ids: Vec::new(),
       issued_secrets: Vec::new(),
     }
@@ -71,6 +75,11 @@ impl KeyGen {
     s
   }
   pub fn secret(&mut self) -> [u8; 32] {
+    if self.repeat_secrets && !self.issued_secrets.is_empty() && self.rng.next() % 5 == 0 {
+      let again = *self.issued_secrets.last().unwrap();
+      self.issued_secrets.push(again);
+      return again;
+    }
     let mut out = [0u8; 32];
     for chunk in out.chunks_mut(8) {
       chunk.copy_from_slice(&self.rng.next().to_le_bytes());
@@ -163,6 +172,8 @@ enum InsertKind {
   WrongAlg,
   EcKey,
   X25519,
+  /// a private key of the store's other key type (BLS12381G2) carrying a JWS algorithm it cannot be used with
+  BlsKeyWithJwsAlg,
 }
 
 #[derive(Clone, Debug)]
@@ -360,6 +371,11 @@ async fn run_op(sh: &Shared, client: usize, op: Op) {
         }
         InsertKind::X25519 => {
           priv_json["crv"] = "X25519".into();
+        }
+        InsertKind::BlsKeyWithJwsAlg => {
+          let jws_alg = ["EdDSA", "ES256"][ctx::choose(2)];
+          priv_json = serde_json::json!({"kty":"EC","crv":"BLS12381G2","alg": jws_alg,
+            "x": b64(&[3u8; 48]), "y": b64(&[4u8; 48]), "d": b64(&[5u8; 32])});
         }
       }
       let jwk = jwk_from_json(priv_json);
@@ -691,7 +707,8 @@ fn gen_op(n_slots: usize, n_digests: usize, invalid_bias: u32) -> Op {
     }
     1 => {
       if ctx::chance(invalid_bias, 6) {
-        Op::Insert(match ctx::choose(5) {
+        Op::Insert(match ctx::choose(6) {
+          5 => InsertKind::BlsKeyWithJwsAlg,
           0 => InsertKind::PublicOnly,
           1 => InsertKind::NoAlg,
           2 => InsertKind::WrongAlg,
